@@ -38,7 +38,8 @@ def run(ctx, factor):
         objs = []
         for k in range(ctx.budget(12, 60) * factor):
             nsec = g.int(1, 3)
-            names = g.pick([[".text", ".text2", ".init"], [".text", ".text.Hot", "MyCode"], [".text._ZN3FooC1Ev", ".init", ".text"]])[:nsec]
+            names = g.pick([[".text", ".text2", ".init"], [".text", ".text.Hot", "MyCode"], [".text._ZN3FooC1Ev", ".init", ".text"],
+                            [".text$hot", ".text", ".text~cold"], [".text", ".text#1", ".text$unlikely"]])[:nsec]
             secs = [(n, objfuzz.random_bytes(g, g.int(8, 120))) for n in names]
             if nsec > 1 and g.chance(0.5):
                 secs[1] = (secs[1][0], list(secs[0][1]))      # two sections with identical code: identical lines
